@@ -16,6 +16,7 @@ macro_rules! dispatch {
             "C04" => fw::$f::<props::c04::C04>($($arg),*),
             "C05" => fw::$f::<props::c05::C05>($($arg),*),
             "C06" => fw::$f::<props::c06::C06>($($arg),*),
+            "C07" => fw::$f::<props::c07::C07>($($arg),*),
             "C08" => fw::$f::<props::c08::C08>($($arg),*),
             "C09" => fw::$f::<props::c09::C09>($($arg),*),
             "C11" => fw::$f::<props::c11::C11>($($arg),*),
